@@ -47,7 +47,16 @@ func argClass(lo, min, max int64) string {
 	return "lo-in-range"
 }
 
-func c20Step(in *c20inst, s Step, idx int, pg *progress) *Viol {
+func c20Step(in *c20inst, s Step, idx int, pg *progress) (viol *Viol) {
+	defer func() {
+		if p := recover(); p != nil {
+			if pg != nil {
+				pg.busy.Store(0)
+			}
+			// a call that panics neither returns a fresh in-bounds identifier nor fails cleanly
+			viol = &Viol{Key: "C20:" + s.Op + "/panic", Step: idx, Inst: s.Inst, Detail: fmt.Sprintf("%s panicked: %v", s, p)}
+		}
+	}()
 	fail := func(clause, detail string) *Viol {
 		return &Viol{Key: "C20:" + s.Op + "/" + clause, Step: idx, Inst: s.Inst, Detail: detail}
 	}
@@ -133,7 +142,11 @@ func runC20pg(h History, pg *progress) *Viol {
 		if ic.Max < ic.Min {
 			return nil // degenerate allocators are outside the property
 		}
-		insts[i] = &c20inst{g: uePolicyContainer.NewGenerator(ic.Min, ic.Max), min: ic.Min, max: ic.Max, live: map[int64]bool{}}
+		g := newGeneratorOrNil(ic.Min, ic.Max)
+		if g == nil {
+			return nil // the constructor rejects these bounds: outside the property
+		}
+		insts[i] = &c20inst{g: g, min: ic.Min, max: ic.Max, live: map[int64]bool{}}
 	}
 	for i, s := range h.Steps {
 		if s.Inst < 0 || s.Inst >= len(insts) {
@@ -177,6 +190,15 @@ func runC20pg(h History, pg *progress) *Viol {
 }
 
 func runC20(h History) *Viol { return runC20pg(h, nil) }
+
+func newGeneratorOrNil(min, max int64) (g *uePolicyContainer.IDGenerator) {
+	defer func() {
+		if recover() != nil {
+			g = nil
+		}
+	}()
+	return uePolicyContainer.NewGenerator(min, max)
+}
 
 var c20mins = []int64{0, 1, 2, 5, 100, 65530, -3, -1, 0, 1, 1<<31 - 2, 1<<32 + 5, 1 << 40, -(1 << 33)}
 
